@@ -4,6 +4,7 @@ package props
 // (a) round trip, (b) every crash prefix of the saved file, (c) byte- and structure-level corruptions.
 
 import (
+	"bytes"
 	"encoding/json"
 	"fmt"
 	"os"
@@ -28,9 +29,13 @@ type c11Case struct {
 	Muts []c11Mut `json:"muts"`
 	// PrefixSeed selects the sampled prefix offsets when the file is too large to enumerate every one.
 	PrefixSeed int `json:"prefix_seed"`
+	// Prefill: what the cache file path holds before the save (the collector saves over its previous file):
+	// "" = nothing, "pretty" = the same cache re-indented (valid, longer), "tail" = the saved document followed
+	// by extra octets, "big" = a long unrelated document, "older" = an older, longer dump of another cache
+	Prefill string `json:"prefill,omitempty"`
 }
 
-const c11Rule = "case = a template cache built by a generated announce/re-announce/data history (IPFIX or NetFlow v9, several exporters, plain/options/enterprise templates) dumped to a file F, " +
+const c11Rule = "case = a template cache built by a generated announce/re-announce/data history (IPFIX or NetFlow v9, several exporters, plain/options/enterprise templates) dumped to a file F (to a fresh path, or over an existing longer file: the same cache re-indented, a document with trailing octets, a long unrelated document), " +
 	"+ up to 40 corruptions of F; (a) round trip: after GetCache(F) every saved (exporter,id) decodes data exactly as before (records and error text) and unannounced pairs stay unknown; " +
 	"(b) crash points: EVERY prefix F[:k] (all k when |F| <= 6 KiB, otherwise the first/last 1.5 KiB, 64 octets around every shard boundary and 600 sampled offsets) is loaded; " +
 	"(c) byte-level (flip, delete, insert, duplicate a range) and structure-level corruptions via a generic JSON tree (drop/null shards, null or wrongly typed Templates, extra shards, wrong/huge/negative/string ShardNo, " +
@@ -365,6 +370,38 @@ func runC11(c *c11Case) (v verdict, sig string, err error) {
 	if e != nil {
 		return v, "dump", fmt.Errorf("saved cache file unreadable: %v", e)
 	}
+	// the collector saves over whatever its previous run (or an operator) left at that path
+	if c.Prefill != "" {
+		var pre []byte
+		switch c.Prefill {
+		case "pretty":
+			var buf bytes.Buffer
+			if json.Indent(&buf, saved, "", "    ") == nil {
+				pre = buf.Bytes()
+			}
+		case "tail":
+			pre = append(append([]byte{}, saved...), []byte(strings.Repeat("}]\n garbage", 40))...)
+		case "big":
+			pre = []byte("{\"Cache\":[" + strings.Repeat("{\"Templates\":{}},", 400) + "{\"Templates\":{}}],\"ShardNo\":32, \"note\":\"" + strings.Repeat("x", 20000) + "\"}")
+		case "older":
+			pre = append(append([]byte{}, saved[:len(saved)-1]...), []byte(",\"Older\":\""+strings.Repeat("o", 3000)+"\"}")...)
+		}
+		if len(pre) > 0 {
+			os.WriteFile(file, pre, 0o644)
+			if derr := cache.dump(file); derr != nil {
+				return v, "dump", fmt.Errorf("saving the cache over an existing file failed: %v", derr)
+			}
+			again, e := os.ReadFile(file)
+			if e != nil {
+				return v, "dump", fmt.Errorf("saved cache file unreadable: %v", e)
+			}
+			if !bytes.Equal(again, saved) {
+				return v, "overwrite", fmt.Errorf("saving the same cache over an existing %d-octet file (%s) leaves %d octets that differ from a save to a fresh path (%d octets): the previous content is not fully replaced",
+					len(pre), c.Prefill, len(again), len(saved))
+			}
+		}
+		v.label(true, "save-over-existing-file")
+	}
 	probes := savedProbes(&c.Hist, model)
 	v.label(true, "proto-"+proto)
 	v.label(len(probes) == 0, "empty-cache")
@@ -524,6 +561,7 @@ func TestC11(t *testing.T) {
 	rapid.Check(t, func(t *rapid.T) {
 		proto := rapid.SampledFrom([]string{"ipfix", "nf9"}).Draw(t, "proto")
 		c := c11Case{Hist: genC04(t, proto, envs[proto]), PrefixSeed: rapid.IntRange(0, 1<<20).Draw(t, "prefixseed")}
+		c.Prefill = rapid.SampledFrom([]string{"", "", "pretty", "tail", "big", "older"}).Draw(t, "prefill")
 		c.Muts = genC11Muts(t)
 		v, sig, err := runC11(&c)
 		col.report(t, mustJSON(c), v, sig, err)
